@@ -7,11 +7,19 @@ from . import common
 
 
 def load_known_findings():
+    """known_findings.json (+ fragments known_findings.d/*.json, each a list of finding entries).  Committed; never written at run time."""
     p = os.path.join(common.VERIF, "known_findings.json")
-    if not os.path.exists(p):
-        return {"findings": [], "fixed": []}
-    with open(p) as fh:
-        return json.load(fh)
+    kf = {"findings": [], "fixed": []}
+    if os.path.exists(p):
+        with open(p) as fh:
+            kf = json.load(fh)
+    d = os.path.join(common.VERIF, "known_findings.d")
+    if os.path.isdir(d):
+        for f in sorted(os.listdir(d)):
+            if f.endswith(".json"):
+                with open(os.path.join(d, f)) as fh:
+                    kf["findings"] += json.load(fh)
+    return kf
 
 
 def findings_for(prop):
